@@ -101,6 +101,7 @@ def case_api(cls, params, rec):
 	B, L = idx.shape
 	X = to_ohe(idx, A, {"int8": torch.int8, "float32": torch.float32,
 		"float64": torch.float64}[params.get("xdtype", "int8")])
+	params, X, xbase = gen.apply_layout(params, rec, X)
 	fn = params["fn"]
 	f = getattr(ersatz, fn)
 	seed_arg = params["seed"]
@@ -122,7 +123,7 @@ def case_api(cls, params, rec):
 			# L - k is a preserved flank / the preserved last character)
 			e = L + 1 + e
 			rec.count("negative_end_calls")
-	mon = gen.Immutable(X=X)
+	mon = gen.Immutable(X=X, Xbase=xbase)
 	st, val = gen.call(f, X, **kw)
 	if mon.changed():
 		rec.violation(cls, params, {"what": "input tensor modified"},
